@@ -202,10 +202,16 @@ def gen_plan(rng, prop, run_index):
     if "wrapper" not in parties and rng.random() < 0.8:
         parties[0] = "wrapper"
     T = wchoice(rng, [(rng.randint(3, 10), 35), (rng.randint(10, 30), 45), (rng.randint(30, 60), 20)])
+    long = run_index % 16 == 5
+    if long:
+        # long histories on few wrappers: hundreds of distinct pairs, then pairs seen long ago are evaluated again
+        T = rng.randint(250, 600)
+        parties = ["wrapper"] + (["same_wrapper"] if rng.random() < 0.5 else [])
+        n_parties = len(parties)
     ops = []
     tag = 1
     for _ in range(T):
-        kind = wchoice(rng, [("call", 78), ("construct", 10), ("observe", 12)])
+        kind = wchoice(rng, [("call", 78), ("construct", 10 if not long else 1), ("observe", 12 if not long else 2)])
         if kind == "call":
             op = {"op": "call", "party": rng.randrange(n_parties), "tag": tag, "rs": rng.getrandbits(48),
                   "kw": rng.random() < 0.3}
@@ -215,7 +221,7 @@ def gen_plan(rng, prop, run_index):
                 op["same_object"] = True
             if tag > 1 and rng.random() < 0.3:
                 # history dependence: repeat an earlier pair exactly, or its values under permuted labels
-                op["like"] = rng.randint(1, tag - 1)
+                op["like"] = rng.randint(1, tag - 1) if not (long and rng.random() < 0.6) else rng.randint(1, max(1, tag // 4))
                 if rng.random() < 0.6:
                     op["rot"] = rng.randint(1, 2)
                     op["other_y"] = rng.random() < 0.5
